@@ -114,3 +114,60 @@ func (w *World) checkpointAndScan(dir string) error {
 	}
 	return w.FS.RemoveAll(dir)
 }
+
+
+// writeMarker writes marker number n: a unique key y<n> that is never deleted,
+// alternately through an ingested table (which overlaps nothing, so it goes
+// straight into the LSM) and through a committed batch. Markers are written by
+// ONE goroutine, one after the other, so marker n+1 is sequenced after marker
+// n has completed: every consistent prefix of the history (an iterator or
+// snapshot view, a checkpoint) holds exactly the markers 0..m-1 for some m.
+func (w *World) writeMarker(r *rand.Rand, n int) error {
+	key := []byte(fmt.Sprintf("y%06d", n))
+	if n%2 == 0 {
+		path := fmt.Sprintf("ext/y-%d.sst", n)
+		_ = w.FS.MkdirAll("ext", 0o755)
+		f, err := w.FS.Create(path, vfs.WriteCategoryUnspecified)
+		if err != nil {
+			return err
+		}
+		wr := sstable.NewWriter(objstorageprovider.NewFileWritable(f), w.Opts.MakeWriterOptions(0, w.DB.TableFormat()))
+		if err := wr.Set(key, []byte("m")); err != nil {
+			wr.Close()
+			return err
+		}
+		if err := wr.Close(); err != nil {
+			return err
+		}
+		return w.DB.Ingest(context.Background(), []string{path})
+	}
+	wo := pebble.NoSync
+	if r.IntN(2) == 0 {
+		wo = pebble.Sync
+	}
+	return w.DB.Set(key, []byte("m"), wo)
+}
+
+// markersClosed checks the marker rule on the point keys of one view.
+func (w *World) markersClosed(what string, pts map[string]string) {
+	var idx []int
+	for k := range pts {
+		if len(k) == 7 && k[0] == 'y' {
+			n := 0
+			fmt.Sscanf(k[1:], "%d", &n)
+			idx = append(idx, n)
+		}
+	}
+	if len(idx) == 0 {
+		return
+	}
+	sort.Ints(idx)
+	w.count("marker-views")
+	for i, n := range idx {
+		if n != i {
+			w.fail("view-not-a-prefix", "%s: the view holds marker %d but not marker %d (markers are written one after the other by a single goroutine, alternately by Ingest and by Set; %d markers in the view, highest %d): the view is not a prefix of the history",
+				what, n, i, len(idx), idx[len(idx)-1])
+			return
+		}
+	}
+}
